@@ -28,3 +28,25 @@ def m_c08_continued_comment_eof(f, rec):
         return False
     prev = lines[-2]
     return prev.rstrip("\r").endswith("\\")
+
+
+def m_c07_with_leading_comment(f, rec):
+    c = rec["case"]
+    if c.get("kind") != "with":
+        return False
+    lines = c["src"].split("\n")
+    try:
+        i = next(k for k, ln in enumerate(lines) if ln.strip().startswith("with!"))
+    except StopIteration:
+        return False
+    body = [ln for ln in lines[i + 1:] if ln.strip()]
+    return bool(body) and body[0].strip().startswith("#")
+
+
+def m_c07_procmacro_special(f, rec):
+    c = rec["case"]
+    if c.get("kind") != "proc":
+        return False
+    want = (rec.get("detail") or {}).get("want") or []
+    rest = want[1] if len(want) > 1 else ""
+    return "`" in rest or "f'" in rest or 'f"' in rest
